@@ -212,19 +212,31 @@ def run(ctx, chk):
 
     R5 = chk.rule("S4-LITERALS", "OpConstant literals: 32-bit patterns as i32 (signed int), u32 (unsigned int) or f32; 64-bit patterns as "
                   "i64, u64 or f64, selected by the tracked result type; unknown type -> generic rendering")
+    V = ("sym", "value")
     for ty, signed_cast, fl in (("u32", "i32", "f32"), ("u64", "i64", "f64")):
-        fb = ctx.rspirv.fn(DIS, "disas_literal_bit", ty, "DisassembleLiteralBit")
-        mm = unblock(fb["body"][1][0][1])
-        tab = {}
-        if mm[0] == "match":
-            for pat, guard, body in mm[2]:
-                tab[show(pat)] = show(unblock(body))
-        want = {"Integer(_, true)": "(value as %s).to_string()" % signed_cast, "Integer(_, false)": "value.to_string()", "Float(_)": "%s::from_bits(value).to_string()" % fl}
-        chk.check(R5, tab == want, "DisassembleLiteralBit for " + ty, "table is %s" % tab, raw.where("disas_literal_bit", ty, "disassemble.rs"), sample=tab)
-    fc = ctx.rspirv.fn(DIS, "disas_constant")
-    tc = show(fc["body"])
-    ok = "type_tracker.resolve(" in tc and "Some(&LiteralBit32(value)), Some(" in tc and "Some(&LiteralBit64(value)), Some(" in tc and "_ => inst.disassemble()" in tc
-    chk.check(R5, ok, "disas_constant:dispatch", "disas_constant is %s" % tc[:300], raw.where("disas_constant", None, "disassemble.rs"))
+        WL = raw.where("disas_literal_bit", ty, "disassemble.rs")
+        for name, lt, want in (("signed integer", ("enum", "Type::Integer", [("sym", "W"), True]), [(("as", V, signed_cast), "")]),
+                               ("unsigned integer", ("enum", "Type::Integer", [("sym", "W"), False]), [(V, "")]),
+                               ("float", ("enum", "Type::Float", [("sym", "W")]), [(("from_bits", fl, V), "")])):
+            inst = "DisassembleLiteralBit for %s (%s)" % (ty, name)
+            try:
+                got = disx.literal_bit(ctx, ty, lt)
+                chk.check(R5, got == want, inst, "renders %s, expected %s in decimal" % (got, want), WL, key="C07:litbit:%s:%s" % (ty, name), sample=str(got))
+            except Anchor as ex:
+                chk.bad(R5, inst, "not analysable: %s" % ex, WL, key="C07:litbit-shape")
+    WC_ = raw.where("disas_constant", None, "disassemble.rs")
+    L32 = ("enum", "Operand::LiteralBit32", [("sym", "V0")])
+    L64 = ("enum", "Operand::LiteralBit64", [("sym", "V0")])
+    for name, rtype, resolved, operand, typed in (("32-bit literal of a tracked type", True, True, L32, True), ("64-bit literal of a tracked type", True, True, L64, True),
+                                                   ("literal of an untracked type", True, False, L32, False), ("no result type", False, False, L32, False),
+                                                   ("non-literal operand", True, True, ("enum", "Operand::IdRef", [("sym", "V0")]), False)):
+        try:
+            r = disx.constant(ctx, rtype, resolved, operand)
+        except Anchor as ex:
+            chk.bad(R5, "disas_constant(%s)" % name, "not analysable: %s" % ex, WC_, key="C07:disas_constant-shape")
+            continue
+        want = ("instr", ("inst",), ("str", " "), ("litbit", ("sym", "V0"), ("sym", "TYPE"))) if typed else ("generic",)
+        chk.check(R5, r == want, "disas_constant(%s)" % name, "renders %s, expected %s" % (str(r)[:200], want), WC_, key="C07:disas_constant:%s" % name)
     tr = [show(n) for n in walk(fm["body"]) if n[0] == "for" and "types_global_values" in show(n[2])]
     chk.check(R5, len(tr) == 1 and "global_type_tracker.track(" in tr[0], "type-tracker-fed-from-types_global_values", "tracker feeding: %s" % [x[:80] for x in tr], WM)
 
@@ -273,26 +285,23 @@ def run(ctx, chk):
 
     R7 = chk.rule("S6-HEADER", "header comment: `; SPIR-V`, `; Version: major.minor`, `; Generator: <tool name>`, `; Bound: n`; the tool name "
                   "table equals the registered generator ids 0-15 (spir-v.xml), `Unknown` otherwise; tool = generator >> 16")
-    fh = ctx.rspirv.fn(DIS, "disassemble", "ModuleHeader", "Disassemble")
-    fs_, fa = fmt_args(fh["body"])
-    th = [show_stmt(s) for s in fh["body"][1]]
-    ok = fs_ == "; SPIR-V\n; Version: {0}.{1}\n; Generator: {2}\n; Bound: {3}" and [show(x) for x in fa] == ["major", "minor", "vendor", "self.bound"] \
-        and th[0] == "let (major, minor) = self.version();" and th[1] == "let (vendor, _) = self.generator();"
-    chk.check(R7, ok, "ModuleHeader::disassemble", "format %r args %s" % (fs_, [show(x) for x in fa]), raw.where("disassemble", "ModuleHeader", "disassemble.rs"))
-    fg = ctx.rspirv.fn(CON, "generator", "ModuleHeader", False)
-    tab = {}
-    default = None
-    for n in walk(fg["body"]):
-        if n[0] == "match" and path_of(n[1]) == "tool":
-            for pat, guard, body in n[2]:
-                b = unblock(body)
-                if pat[0] == "p_lit":
-                    tab[int_of(pat)] = b[2] if b[0] == "lit" else None
-                elif pat[0] == "p_wild":
-                    default = b[2] if b[0] == "lit" else None
-    tg = [show_stmt(s) for s in fg["body"][1]]
-    chk.check(R7, tab == ospec.GENERATORS and default == "Unknown" and tg[0] == "let tool = ((self.generator & 4294901760) >> 16);", "generator-table",
-              "table %s default %r; tool = %s" % (tab, default, tg[0]), raw.where("generator", "ModuleHeader"), sample=tab)
+    try:
+        ht = disx.header_text(ctx)
+        want = ["; SPIR-V\n; Version: ", (("sym", "MAJOR"), ""), ".", (("sym", "MINOR"), ""), "\n; Generator: ", (("sym", "VENDOR"), ""), "\n; Bound: ", (("sym", "BOUND"), "")]
+        chk.check(R7, ht == want, "ModuleHeader::disassemble", "header text is %s" % ht, raw.where("disassemble", "ModuleHeader", "disassemble.rs"), sample=str(ht))
+    except Anchor as ex:
+        chk.bad(R7, "ModuleHeader::disassemble", "not analysable: %s" % ex, raw.where("disassemble", "ModuleHeader", "disassemble.rs"))
+    WG = raw.where("generator", "ModuleHeader")
+    for tool in list(range(0, 18)) + [255, 0xffff]:
+        word = (tool << 16) | 0x1234
+        try:
+            r = disx.generator(ctx, word)
+            want = ("tuple", [("str", ospec.GENERATORS.get(tool, "Unknown")), 0x1234])
+            chk.check(R7, r == want, "generator(tool id %d)" % tool, "yields %s, expected %s" % (r, want), WG, key="C07:generator:%d" % tool,
+                      sample=str(r) if tool == 15 else None)
+        except Anchor as ex:
+            chk.bad(R7, "generator(tool id %d)" % tool, "not analysable: %s" % ex, WG, key="C07:generator-shape")
+            break
     chk.analysed.update({"operand_variants": len(variants), "mask_tables": len(mt)})
 
 
